@@ -45,6 +45,14 @@ CHECKS["C14"] = dict(
          "(b) enumerates every history up to length D over a small operation alphabet, which the harness executes on the real FontMap with synthetic fonts, and (c) validates these and random 25-step histories event by event: NonNil, Priority, Functional (memo across the trace), FreshEq (same answer as a map rebuilt from scratch).",
     note="Trusts TLC, synthetic fonts written by WriteTTF (cmap 12 + head + maxp), intended coverage as fact. Substitution tables and system-font index are outside this check. Bounded history length / alphabet.")
 
+CHECKS["C19"] = dict(
+    engine="sfnt",
+    technique="TLA+ specification of the sfnt container layout (Sfnt.tla: header search fields, directory, zero-padded checksums in 16-bit halves, offsets/lengths, an independent directory decode) evaluated by TLC on the bytes written by the real WriteTTF and on what the real Loader reads back",
+    category="model_checking", design_ref="DESIGN.md §5 C19",
+    text="Every predicate of Sfnt.tla (Header, DirectoryOrder, Checksums, Lengths, Offsets, ReadBack by a decoder written in TLA+, LoaderTags/LoaderReadBack through the real reader, InputsUntouched incl. spare capacity) is evaluated by TLC on every length vector of <= K tables with lengths 0..9 (all residues mod 4) and on random lists of up to 40 tables. "
+         "A pure function of a list of byte strings whose case analysis is in the length residues: exhaustive over residues is the right level.",
+    note="Trusts TLC and the harness's byte logging. Table contents are sampled by seed (the layout does not depend on them, the checksum does linearly). Files larger than a few KB are not generated.")
+
 NOT_YET = {}
 NA = {
  "C05": "defined as agreement with the reference C HarfBuzz; no reference shaper (uharfbuzz/hb-shape) exists in this sealed sandbox and re-specifying HarfBuzz in TLA+ would make the spec the reference (DESIGN §6)",
